@@ -134,6 +134,8 @@ PreGenesis ==
     qans |-> << >>,
     \* digests of the real stores (auth store; all other stores); only the trace monitor sets them
     dAuth |-> "", dRest |-> "",
+    \* which of the named accounts have a record in the auth store (observed only; a rejected call creates none)
+    accex |-> << >>,
     minted |-> 0, burned |-> 0, donated |-> 0, fees |-> 0,
     gwin |-> [v \in Users |-> << >>],
     lastRes |-> "n/a", lastUpd |-> {}, updOk |-> TRUE,
